@@ -91,6 +91,9 @@ func (vm valueMap) toAst(s string) string {
 				if def == "true" {
 					return "true", n
 				}
+				if strings.ContainsAny(def, " ") && !(strings.HasPrefix(def, "(") && strings.HasSuffix(def, ")") && balanced(def[1:len(def)-1])) {
+					return "(" + def + ")", n
+				}
 				return def, n
 			}
 		}
@@ -98,55 +101,73 @@ func (vm valueMap) toAst(s string) string {
 	})
 }
 
-// restoreElems groups restore's primitive events into schema elements.
+// restoreElems groups restore's primitive events into schema elements, treating the case body
+// as if every guarded statement executed (used by rules that only need the order of elements).
 func (e *Env) restoreElems(cs *schema.Case, vm valueMap) (elems []Elem, problems []string) {
-	evs := cs.Events
-	used := make([]bool, len(evs))
+	return e.restoreElemsUnder(cs, vm, nil)
+}
+
+// restoreElemsUnder first selects the events whose guards hold under the valuation (nil = all),
+// i.e. one straight-line execution of the case, and then groups position stores, value copies
+// and cursor advances into tokens, strings and bad ranges.
+func (e *Env) restoreElemsUnder(cs *schema.Case, vm valueMap, val map[string]bool) (elems []Elem, problems []string) {
 	tr := func(s string) string { return vm.toAst(s) }
+	var evs []schema.Event
+	for _, ev := range cs.Events {
+		if val != nil && ev.Guard != "" {
+			g := parseGuard(normGuard(tr(ev.Guard)))
+			if g.ok && !evalGuard(g.expr, val) {
+				continue
+			}
+		}
+		evs = append(evs, ev)
+	}
+	used := make([]bool, len(evs))
+	guardOf := func(ev schema.Event) string {
+		if val != nil {
+			return "" // already selected
+		}
+		return tr(ev.Guard)
+	}
 	for i, ev := range evs {
 		switch ev.Kind {
 		case schema.KDec:
 			used[i] = true
-			el := Elem{Kind: "D", Name: ev.Name, Src: ev.Src, End: ev.End, Guard: tr(ev.Guard), Else: ev.Else, Pos: ev.Pos}
-			elems = append(elems, el)
+			elems = append(elems, Elem{Kind: "D", Name: ev.Name, Src: ev.Src, End: ev.End, Guard: tr(ev.Guard), Pos: ev.Pos})
 		case schema.KChild:
 			used[i] = true
-			elems = append(elems, Elem{Kind: "C", Field: ev.Field, Src: ev.Src, Guard: tr(ev.Guard), Else: ev.Else, Pos: ev.Pos})
+			elems = append(elems, Elem{Kind: "C", Field: ev.Field, Src: ev.Src, Guard: guardOf(ev), Pos: ev.Pos})
 		case schema.KList:
 			used[i] = true
-			elems = append(elems, Elem{Kind: "L", Field: ev.Field, Src: ev.Src, Guard: tr(ev.Guard), Else: ev.Else, Pos: ev.Pos})
+			elems = append(elems, Elem{Kind: "L", Field: ev.Field, Src: ev.Src, Guard: guardOf(ev), Pos: ev.Pos})
 		case schema.KMap:
 			used[i] = true
 			if ev.Expr == schema.KChild {
-				elems = append(elems, Elem{Kind: "M", Field: ev.Field, Src: ev.Src, Guard: tr(ev.Guard), Else: ev.Else, Pos: ev.Pos})
+				elems = append(elems, Elem{Kind: "M", Field: ev.Field, Src: ev.Src, Guard: guardOf(ev), Pos: ev.Pos})
 			}
 		case schema.KAdvance:
 			used[i] = true
 			switch {
 			case ev.Token != "":
-				el := Elem{Kind: "T", Token: tr(ev.Token), Guard: tr(ev.Guard), Else: ev.Else, Pos: ev.Pos}
-				// look back over contiguous PosStore / Value(token field) events
+				tok := tr(ev.Token)
+				if val != nil {
+					tok = resolveToken(tok, val)
+				}
+				el := Elem{Kind: "T", Token: tok, Guard: guardOf(ev), Pos: ev.Pos}
 				for j := i - 1; j >= 0 && !used[j]; j-- {
 					p := evs[j]
 					if p.Kind == schema.KPosStore {
 						used[j] = true
-						switch {
-						case p.Expr == "cursor" && p.Guard == ev.Guard && p.Else == ev.Else:
-							if el.PosField != "" {
-								problems = append(problems, fmt.Sprintf("token %s stores two positions (%s, %s)", ev.Token, p.Field, el.PosField))
-							}
-							el.PosField = p.Field
-						case p.Expr == "cursor" && p.Else && strings.HasPrefix(p.Guard, ev.Guard):
-							// else-branch of the NoPos alternative
-							el.PosField = p.Field
-						case p.Expr == "NoPos" && !p.Else && strings.HasPrefix(p.Guard, ev.Guard):
-							el.NoPosAlt = tr(strings.TrimPrefix(strings.TrimPrefix(p.Guard, ev.Guard), " && "))
-						default:
-							problems = append(problems, fmt.Sprintf("position store out.%s = %s under guard %q does not match its token's guard %q", p.Field, p.Expr, p.Guard, ev.Guard))
+						if el.PosField != "" && el.PosField != p.Field {
+							problems = append(problems, fmt.Sprintf("token %s stores two positions (%s, %s)", ev.Token, p.Field, el.PosField))
+						}
+						el.PosField = p.Field
+						if p.Expr == "NoPos" {
+							el.NoPosAlt = "NoPos"
 						}
 						continue
 					}
-					if p.Kind == schema.KValue && p.Src != "" && "n."+p.Src == ev.Token && p.Guard == ev.Guard {
+					if p.Kind == schema.KValue && p.Src != "" && "n."+p.Src == ev.Token {
 						used[j] = true
 						el.ValField = p.Field
 						continue
@@ -155,30 +176,32 @@ func (e *Env) restoreElems(cs *schema.Case, vm valueMap) (elems []Elem, problems
 				}
 				elems = append(elems, el)
 			case ev.Src != "":
-				el := Elem{Kind: "S", Field: ev.Src, Guard: tr(ev.Guard), Else: ev.Else, Pos: ev.Pos}
+				el := Elem{Kind: "S", Field: ev.Src, Guard: guardOf(ev), Pos: ev.Pos}
 				for j := i - 1; j >= 0 && !used[j]; j-- {
 					p := evs[j]
-					if p.Kind == schema.KPosStore && p.Expr == "cursor" && p.Guard == ev.Guard {
+					if p.Kind == schema.KPosStore && p.Expr == "cursor" {
 						used[j] = true
 						el.PosField = p.Field
 						continue
 					}
-					if p.Kind == schema.KValue && p.Src == ev.Src && p.Guard == ev.Guard {
+					if p.Kind == schema.KValue && p.Src == ev.Src {
 						used[j] = true
 						el.ValField = p.Field
 						continue
 					}
-					if p.Kind == schema.KLiteral && p.Src == ev.Src && p.Guard == ev.Guard {
+					if p.Kind == schema.KLiteral && p.Src == ev.Src {
 						used[j] = true
 						el.Token = "literal"
 						continue
+					}
+					if p.Kind == schema.KValue || p.Kind == schema.KOther {
+						continue // unrelated value copies (out.Kind = n.Kind) may sit in between
 					}
 					break
 				}
 				elems = append(elems, el)
 			case strings.HasPrefix(ev.Expr, "n."):
-				// bad node: From = cursor; cursor += Length; To = cursor
-				el := Elem{Kind: "B", Field: strings.TrimPrefix(ev.Expr, "n."), Guard: tr(ev.Guard), Pos: ev.Pos}
+				el := Elem{Kind: "B", Field: strings.TrimPrefix(ev.Expr, "n."), Guard: guardOf(ev), Pos: ev.Pos}
 				if i > 0 && !used[i-1] && evs[i-1].Kind == schema.KPosStore && evs[i-1].Expr == "cursor" {
 					used[i-1] = true
 					el.PosField = evs[i-1].Field
@@ -209,32 +232,75 @@ func (e *Env) restoreElems(cs *schema.Case, vm valueMap) (elems []Elem, problems
 	return elems, problems
 }
 
+// eventAtoms collects the guard atoms of a case's events (translated to the ast side).
+func (e *Env) eventAtoms(cs *schema.Case, vm valueMap, into map[string]bool) {
+	for _, ev := range cs.Events {
+		if ev.Guard != "" {
+			if g := parseGuard(normGuard(vm.toAst(ev.Guard))); g.ok && g.expr != nil {
+				collectAtoms(g.expr, into)
+			}
+		}
+		if ev.Token != "" {
+			tokenAtoms(vm.toAst(ev.Token), into)
+		}
+	}
+}
+
+// flatten evaluates an element list under a guard valuation: elements whose guard is false are
+// dropped, conditional tokens are resolved. ignoreDecGuards: the fragger may guard a point (`Use`).
+func flatten(elems []Elem, val map[string]bool, ignoreDecGuards bool) []string {
+	var out []string
+	for _, el := range elems {
+		if val != nil && !(el.Kind == "D" && ignoreDecGuards) {
+			g := parseGuard(normGuard(el.Guard))
+			if g.ok && !evalGuard(g.expr, val) {
+				continue
+			}
+		}
+		k := el
+		if val != nil {
+			k.Token = resolveToken(el.Token, val)
+		}
+		out = append(out, k.Key())
+	}
+	return out
+}
+
+func elemAtoms(elems []Elem, into map[string]bool) {
+	for _, el := range elems {
+		if g := parseGuard(normGuard(el.Guard)); g.ok && g.expr != nil {
+			collectAtoms(g.expr, into)
+		}
+		tokenAtoms(el.Token, into)
+	}
+}
+
 // fraggerElems maps fragger events to elements.
 func (e *Env) fraggerElems(cs *schema.Case) (elems []Elem, problems []string) {
 	for _, ev := range cs.Events {
 		switch ev.Kind {
 		case schema.KDec:
-			elems = append(elems, Elem{Kind: "D", Name: ev.Name, Src: ev.Expr, Guard: ev.Guard, Else: ev.Else, Pos: ev.Pos})
+			elems = append(elems, Elem{Kind: "D", Name: ev.Name, Src: ev.Expr, Guard: ev.Guard, Pos: ev.Pos})
 		case schema.KTok:
 			pf := ev.Field
 			if pf == "NoPos" {
 				pf = ""
 			}
-			elems = append(elems, Elem{Kind: "T", Token: ev.Token, PosField: pf, Guard: ev.Guard, Else: ev.Else, Pos: ev.Pos})
+			elems = append(elems, Elem{Kind: "T", Token: ev.Token, PosField: pf, Guard: ev.Guard, Pos: ev.Pos})
 		case schema.KStr:
 			pf := ev.Field
 			if pf == "NoPos" {
 				pf = ""
 			}
-			elems = append(elems, Elem{Kind: "S", Field: ev.Src, PosField: pf, Guard: ev.Guard, Else: ev.Else, Pos: ev.Pos})
+			elems = append(elems, Elem{Kind: "S", Field: ev.Src, PosField: pf, Guard: ev.Guard, Pos: ev.Pos})
 		case schema.KBad:
 			elems = append(elems, Elem{Kind: "B", PosField: ev.Field, Token: ev.Expr, Guard: ev.Guard, Pos: ev.Pos})
 		case schema.KChild:
-			elems = append(elems, Elem{Kind: "C", Field: ev.Field, Src: ev.Src, Guard: ev.Guard, Else: ev.Else, Pos: ev.Pos})
+			elems = append(elems, Elem{Kind: "C", Field: ev.Field, Src: ev.Src, Guard: ev.Guard, Pos: ev.Pos})
 		case schema.KList:
-			elems = append(elems, Elem{Kind: "L", Field: ev.Field, Src: ev.Src, Guard: ev.Guard, Else: ev.Else, Pos: ev.Pos})
+			elems = append(elems, Elem{Kind: "L", Field: ev.Field, Src: ev.Src, Guard: ev.Guard, Pos: ev.Pos})
 		case schema.KMap:
-			elems = append(elems, Elem{Kind: "M", Field: ev.Field, Src: ev.Src, Guard: ev.Guard, Else: ev.Else, Pos: ev.Pos})
+			elems = append(elems, Elem{Kind: "M", Field: ev.Field, Src: ev.Src, Guard: ev.Guard, Pos: ev.Pos})
 		case schema.KOpaque:
 			problems = append(problems, "statement with tracked effects in an unrecognised shape: "+ev.Expr)
 		}
